@@ -242,10 +242,6 @@ with SqliteImpl.impl_store.impl_manager as impl:
         pow_impl = SqliteImpl.get_impl(ops.pow, (Float(), Float()))
         return sqa.func.sign(x) * pow_impl(sqa.func.abs(x), sqa.literal(1 / 3, type_=sqa.Double))
 
-    @impl(ops.clip)
-    def _clip(x, lower, upper):
-        return sqa.func.max(sqa.func.min(x, upper), lower)
-
     @impl(ops.dt_day_of_week)
     def _day_of_week(x):
         # `%w` rounds the time to milliseconds first, so shortly before midnight it
